@@ -26,6 +26,7 @@ impl Worker {
         let mut child = Command::new(exe)
             .arg("CHILD")
             .env("NQV_CHILD", mode)
+            .env("NQV_CHILD_ABORT_ON_PANIC", "1")
             .env("RUST_BACKTRACE", "0")
             .env("RUST_LIB_BACKTRACE", "0")
             .stdin(Stdio::piped())
@@ -123,6 +124,9 @@ pub fn serve(mut handle: impl FnMut(&J) -> J) -> i32 {
         let mut o = out.lock();
         let _ = writeln!(o, "PANIC {}|{}", site, msg.replace('\n', " "));
         let _ = o.flush();
+        if std::env::var("NQV_CHILD_ABORT_ON_PANIC").is_ok() {
+            std::process::abort();
+        }
     }));
     let stdin = std::io::stdin();
     for line in stdin.lock().lines() {
